@@ -2,7 +2,7 @@ CFG = dict(
     id="C03", props="Props/C03.v", harness="c03", shims=["c2--c03.go"], tags="verif,tiny",
     trusted_base=[
         "com.Packet Marshal/Unmarshal and MarshalStream/UnmarshalStream are executed for real in every case but are not modelled here (C01 models them); the model only computes the stream length and treats the container's Chunk as the list of packed packets",
-        "the overlay shim c2--c03.go builds Session/Listener/Server/conn values without a network and a recording mux (messager); a pending re-key is recorded on client senders so that pick() is deterministic",
+        "the overlay shim c2--c03.go builds Session/Listener/Server/conn/proxyClient values without a network and a recording mux (messager); a pending re-key is recorded on client senders so that pick() is deterministic",
         "payload equality is length + CRC-32 of the bytes (content id in the model)",
         "the model's own packet record (Model/Batch.v: id, job, device, flag word as a record, tags, payload length, content id); device IDs are small integers, 0 = the empty ID",
     ],
@@ -10,6 +10,7 @@ CFG = dict(
         "queued packets are `queueable`: not themselves containers (FlagMulti/FlagMultiDevice) or oneshot, job number assigned (verifyPacket's random job for Job 0 is not modelled), non-zero tags, fragments carry a count (or are SvDrop/SvRegister notices)",
         "a queued packet flagged as key material (FlagCrypt) has an empty payload: the peer's key machinery (Listener.notify -> keyCryptAndUpdate) consumes the payload of such a packet, which is C06's subject; its position, order and the rule that next() sends a picked one alone are modelled and generated",
         "Size() <= limits.Frag is NOT assumed (an oversized packet is sent alone; the budget theorem speaks about containers with more than one packet)",
+        "a proxyClient queue (the proxy's queue for one of its clients) holds packets for that client's device only (Proxy.accept routes by device)",
         "every foreign device in the queue has a registered session on the receiving listener (otherwise the peer asks it to re-register and drops the packet: C15/C05 territory)",
         "the session is not in channel mode; no packet is queued concurrently with next() (the queue is a snapshot: `histories` = successive transmissions of that snapshot); the random re-key packet of pick() is outside the model",
         "the session's device ID is not empty and limits.Packets < 65536 (wf_conf)",
@@ -20,8 +21,11 @@ CFG = dict(
                "peer's per-packet processing observes over the whole drain is the queue without keep-alives and without the leading run of the abandoned "
                "group, same order, each once, id/job/device/flags/payload intact; the carried-over packet is peek and opens the next transmission; every "
                "container with more than one packet respects the Size and count budget; tags are preserved as a set; the only receiver error is the empty "
-               "container produced by a keep-alive-only queue (recorded as an observation). The theorems are about the very definitions (`drain`, "
-               "`session_next`, `recv_tx`) that `check` evaluates on every generated queue.",
+               "container produced by a keep-alive-only queue (recorded as an observation). The proxying case has its own model of proxyClient.pick/next "
+               "(`pc_next`, the smaller copy of Session.next over the same nextPacket) and of the client's receive: the same delivery theorem is proved for it, "
+               "including that polls after the queue has drained yield keep-alives only, and `pc_next` is proved equal to `session_next` up to the merged tags "
+               "where both apply. The theorems are about the very definitions (`drain`, `session_next`, `recv_tx`, `pc_drain`, `pc_next`, `recv_client`) "
+               "that `check` evaluates on every generated queue.",
     level_note="Proof is about the model; the tie to the code is differential: generated queues are drained through the real next(), Marshal/Unmarshal and "
                "conn.process, and the model is evaluated on the same queues inside Coq (its strength is that of the generator, distribution in the evidence). "
                "Built with -tags tiny (Frag = 262144, Packets = 32); the model and all theorems take both as parameters; the standard build "
